@@ -29,6 +29,8 @@ EXTENDS ChainImportProp, TLC, Json
 
 CONSTANTS MaxOffers,   \* number of InsertChain calls in a behaviour
           MaxCrash,    \* 0 (generation), 1, 2
+          Atomic,      \* TRUE: the proposed repair -- lookups, canonical hashes, stale-lookup deletions and head markers of a
+                       \*       WriteBlockWithState (reorg included) go into ONE database batch
           GenMode      \* "none" | "leaf"
 
 KnownF == JsonDeserialize("known_c11.json")
@@ -88,14 +90,16 @@ Plan(s, b, f) ==
        reorg    == IF Par(b, f) = s.cur THEN <<>>
                    ELSE Flat([i \in DOMAIN newChain |-> InsertOps(newChain[i]) \o TxlOps(newChain[i])])
                         \o (IF diff = {} THEN <<>> ELSE << [op |-> "deltx", b |-> b, txs |-> diff] >>)
+       index == reorg \o (IF Txs(b) = {} THEN <<>> ELSE << [op |-> "batch", b |-> b] >>)        \* receipts + lookups, one batch
+                      \o InsertOps(b)
    IN << [op |-> "body", b |-> b], [op |-> "hnum", b |-> b], [op |-> "hdr", b |-> b] >>      \* rawdb.WriteBlock
       \o (IF HasState(s, b, f) THEN <<>> ELSE << [op |-> "st", b |-> b] >>)                     \* trie commits (nothing new: no write)
-      \o reorg
-      \o (IF Txs(b) = {} THEN <<>> ELSE << [op |-> "batch", b |-> b] >>)                        \* receipts + lookups, one batch
-      \o InsertOps(b)
+      \o (IF Atomic THEN << [op |-> "atomic", b |-> b, ops |-> index] >> ELSE index)
 
+RECURSIVE ApplyOp(_, _, _), RunOps(_, _, _)
 ApplyOp(s, o, f) ==
-   CASE o.op = "hdr"   -> [s EXCEPT !.blk = @ \cup {o.b}]
+   CASE o.op = "atomic" -> RunOps(s, o.ops, f)
+     [] o.op = "hdr"   -> [s EXCEPT !.blk = @ \cup {o.b}]
      [] o.op = "st"    -> [s EXCEPT !.roots = @ \cup {RootOf(o.b, f)}]
      [] o.op = "headH" -> [s EXCEPT !.headH = o.b]
      [] o.op = "canon" -> [s EXCEPT !.canon[NumOf(o.b, f)] = o.b]
@@ -113,7 +117,6 @@ Dispatch(s, b, f) ==
    ELSE IF b \in Invalid THEN "stop"                                                   \* ValidateState fails, nothing written
    ELSE "write"
 
-RECURSIVE RunOps(_, _, _)
 RunOps(s, ops, f) == IF ops = <<>> THEN s ELSE RunOps(ApplyOp(s, Head(ops), f), Tail(ops), f)
 RECURSIVE RunSeg(_, _, _)
 RunSeg(s, bs, f) ==
